@@ -151,6 +151,8 @@ UNITS['c02'] = {
         ('status_response_never_reused', 'entry_or_insert(&mut responses, self.http_status_code(s), ReferenceOr::Item(Response::default()))', 'opt_insert(&mut default, ReferenceOr::Item(Response::default()))', ['C02.responses', 'C02.xfer_responses']),
         ('media_type_not_inserted', 'res.content.insert(media_type, media_schema);', '', ['C02.responses', 'C02.xfer_responses']),
         ('request_body_without_schema', 'schema: Some(self.schema(schema)), examples: self.content_examples(domain),', 'schema: None, examples: self.content_examples(domain),', ['C02.request', 'C02.domain_request']),
+        ('header_required_flag_dropped', 'required: opt_bool_or_false(&prop.required),', 'required: false,', ['C02.headers', 'C02.prop_header']),
+        ('header_keyed_by_description', 'str_to_owned(p.name.as_ref()),', 'String::new(),', ['C02.headers', 'C02.content_headers']),
         ('method_label_put_is_post', 'atom::Method::Put => "put",', 'atom::Method::Put => "post",', ['C02.method_label']),
     ],
 }
@@ -261,7 +263,7 @@ PROPS = {
         'units': ['c02'],
         'level': 'other',
         'obligation_prefixes': ['C02.'],
-        'technique': 'Verus contracts on the real emitter functions Builder::{all_paths, relation_path_item, xfer_params, xfer_request, domain_request, xfer_responses, method_label} over mirrored openapiv3 field lists and the real spec::{Transfer, Relation, Spec, Content, Object} types',
+        'technique': 'Verus contracts on the real emitter functions Builder::{all_paths, relation_path_item, xfer_params, xfer_request, domain_request, xfer_responses, content_headers, prop_header, method_label} over mirrored openapiv3 field lists and the real spec::{Transfer, Relation, Spec, Content, Object} types',
         'level_text': 'Deductive proof (Verus/Z3) of the structural skeleton of the translation, for every evaluated program: all_paths emits exactly one path item per resource, keyed by the resource\'s URI pattern, in program order '
                       '(precondition: the patterns are pairwise distinct — equal patterns would collapse in the IndexMap); relation_path_item fills, for every declared method, exactly that method\'s slot with an operation whose id, description, tags, parameters, '
                       'request body and responses are built from THAT method\'s transfer, and leaves every other slot empty; xfer_params lists every declared query parameter and every request header once, in order; '
@@ -275,7 +277,7 @@ PROPS = {
         'design_ref': 'DESIGN.md section 12.14',
         'explanation': 'The plan listed C02 as not applicable (needs a reference semantics). The clause "nothing declared is silently dropped, duplicated, or attached to a different declaration than the one the source names" has a function-level core in the emitter: which slot an operation goes to and which transfer it is built from.',
         'assumptions': ['patterns of the resources are pairwise distinct (otherwise later resources overwrite earlier ones: not checked by the compiler)', 'shims listed in level_note'],
-        'not_decided': ['the evaluator side of the translation (that the evaluated spec means what the source says)', 'schemas (value_schema and below), content_headers, annotations, xfer_id; that a response shared by several alternatives carries only the LAST alternative\'s headers / description is what the code does and what the contract states — whether the earlier ones should be merged is a language-design question', 'uniqueness of URI patterns across resources', 'operationId uniqueness'],
+        'not_decided': ['the evaluator side of the translation (that the evaluated spec means what the source says)', 'schemas (value_schema and below), annotations, xfer_id; that a response shared by several alternatives carries only the LAST alternative\'s headers / description is what the code does and what the contract states — whether the earlier ones should be merged is a language-design question', 'uniqueness of URI patterns across resources', 'operationId uniqueness'],
     },
     'C03': {
         'units': ['c03'],
